@@ -41,6 +41,7 @@ func runC17(c *Ctx) {
 	publishedDefaults(c, o)
 	lockPairing(c)
 	noLockReentry(c, nil)
+	lazyStateInitialisedFirst(c)
 	singleSection(c)
 	driverStateRule(c, "driver-keeps-no-state", driverMethods, o)
 	poolDisciplineRule(c)
